@@ -241,7 +241,10 @@ func (g *docGen) render(n *cnode) string {
 		case "srcset":
 			return fmt.Sprintf(`<img src="/i/m%d.png" srcset="/i/m%d-2x.png 2x, /i/m%d-3x.png 3x"%s>`, m, m, m, g.noiseAttrs())
 		case "picture":
-			return fmt.Sprintf(`<picture><source srcset="/i/m%d-s.webp"><img src="/i/m%d.png"%s></picture>`, m, m, g.noiseAttrs())
+			// pictures may carry more than sources and the image: hidden fallbacks, comments, scripts
+			junk := g.pick("", "", `<span hidden>`+g.words(2)+`</span>`, `<span style="display:none">`+g.words(2)+`</span>`,
+				`<!-- `+g.words(2)+` -->`, `<script>var `+g.words(1)+`;</script>`, `<noscript>`+g.words(2)+`</noscript>`)
+			return fmt.Sprintf(`<picture%s><source srcset="/i/m%d-s.webp"%s>%s<img src="/i/m%d.png"%s></picture>`, g.noiseAttrs(), m, g.noiseAttrs(), junk, m, g.noiseAttrs())
 		case "lazy":
 			return fmt.Sprintf(`<img data-src="/i/m%d.png"%s>`, m, g.noiseAttrs())
 		case "wiki":
@@ -255,7 +258,7 @@ func (g *docGen) render(n *cnode) string {
 		m := g.marker()
 		switch g.pick("src", "sources", "poster") {
 		case "sources":
-			return fmt.Sprintf(`<video controls%s><source src="/v/m%d.webm"><source src="/v/m%d.mp4"><track src="/v/m%d.vtt"></video>`, g.noiseAttrs(), m, m, m)
+			return fmt.Sprintf(`<video controls%s><source src="/v/m%d.webm"%s><source src="/v/m%d.mp4"><track src="/v/m%d.vtt"%s></video>`, g.noiseAttrs(), m, g.noiseAttrs(), m, m, g.noiseAttrs())
 		case "poster":
 			return fmt.Sprintf(`<video src="/v/m%d.mp4" poster="/v/m%d.jpg"%s></video>`, m, m, g.noiseAttrs())
 		default:
@@ -289,8 +292,12 @@ func (g *docGen) render(n *cnode) string {
 	case "FIG":
 		m := g.marker()
 		img := fmt.Sprintf(`<img src="/i/m%d.png"%s>`, m, g.noiseAttrs())
-		if g.pick("img", "img", "noscript", "picture") == "noscript" && !g.canonical {
+		switch g.pick("img", "img", "noscript", "picture") {
+		case "noscript":
 			img = fmt.Sprintf(`<img src="data:image/gif;base64,R0lGOD"><noscript><img src="/i/m%d.png"></noscript>`, m)
+		case "picture":
+			junk := g.pick("", `<span hidden>`+g.words(2)+`</span>`, `<!-- `+g.words(2)+` -->`, `<script>var `+g.words(1)+`;</script>`)
+			img = fmt.Sprintf(`<picture%s><source srcset="/i/m%d-s.webp"%s>%s<img src="/i/m%d.png"%s></picture>`, g.noiseAttrs(), m, g.noiseAttrs(), junk, m, g.noiseAttrs())
 		}
 		cap := g.kidsHTML(n)
 		if len(n.kids) == 0 {
